@@ -493,7 +493,6 @@ class World:
             return f
 
         if kind == "counted":
-            ev = []
             if name == "lock_read":
                 if mx.count == 0:
                     if flt == "fail":
